@@ -107,6 +107,57 @@ def run(ctx):
         if log != [("A", h), ("B", h), ("C", h)] or out is not obj:
             run.violation(f"PluginManager.{h} does not apply the plugins' {h} hooks in configuration order: {log}",
                           {"hook": h, "calls": log})
+    # ---------------------------------------------------------------- the configuration route: plugins/explorer.py
+    # entries are class paths or module paths (a module stands for the plugin classes it exposes, in
+    # inspect.getmembers order); the resolved list must keep the ORDER of the entries (Model: resolve_entries)
+    import os
+    import sys
+    import tempfile
+
+    from ariadne_codegen.plugins import explorer
+
+    tmp = tempfile.mkdtemp(prefix="vh-c15-explorer-")
+    try:
+        with open(os.path.join(tmp, "c15_multi_plugins.py"), "w") as fh:
+            fh.write("from ariadne_codegen.plugins.base import Plugin\n\n\nclass BetaPlugin(Plugin):\n    pass\n\n\n"
+                     "class AlphaPlugin(Plugin):\n    pass\n")
+        sys.path.insert(0, tmp)
+        C = "ariadne_codegen.contrib."
+        cp = {"S": C + "shorter_results.ShorterResultsPlugin", "E": C + "extract_operations.ExtractOperationsPlugin",
+              "F": C + "client_forward_refs.ClientForwardRefsPlugin", "N": C + "no_reimports.NoReimportsPlugin"}
+        mp = {"S": C + "shorter_results", "E": C + "extract_operations", "F": C + "client_forward_refs",
+              "N": C + "no_reimports"}
+        names = {"S": ["ShorterResultsPlugin"], "E": ["ExtractOperationsPlugin"], "F": ["ClientForwardRefsPlugin"],
+                 "N": ["NoReimportsPlugin"]}
+        multi = ("c15_multi_plugins", ["AlphaPlugin", "BetaPlugin"])
+        contrib = ("ariadne_codegen.contrib", ["ClientForwardRefsPlugin", "ExtractOperationsPlugin", "NoReimportsPlugin",
+                                                "ShorterResultsPlugin"])
+        lists = []
+        for perm in itertools.permutations("SEFN", 2):
+            for forms in itertools.product("cm", repeat=2):
+                lists.append([((cp if f == "c" else mp)[k], names[k]) for k, f in zip(perm, forms)])
+        lists += [[multi, (cp["S"], names["S"])], [(cp["S"], names["S"]), multi], [(mp["F"], names["F"]), multi, (cp["E"], names["E"])],
+                  [contrib], [(cp["S"], names["S"]), contrib], [contrib, (cp["S"], names["S"])],
+                  [(mp["S"], names["S"]), (cp["F"], names["F"]), (mp["E"], names["E"]), (cp["N"], names["N"])]]
+        for entries in lists:
+            run.count()
+            want = [n for _e, ns in entries for n in ns]          # flat_map in configuration order
+            try:
+                got = [c.__name__ for c in explorer.get_plugins_types([e for e, _ns in entries])]
+            except Exception as exc:  # noqa
+                run.broken("K1 explorer", f"get_plugins_types({[e for e, _ in entries]}) raises {type(exc).__name__}: {exc}")
+                continue
+            if got != want:
+                run.violation(f"plugins/explorer.py does not keep configuration order: entries {[e for e, _ in entries]} "
+                              f"resolve to {got}, configuration order is {want}",
+                              {"plugins": [e for e, _ in entries], "resolved": got, "expected": want})
+        run.dist("source_derived", "explorer-entry-lists", len(lists))
+    finally:
+        if tmp in sys.path:
+            sys.path.remove(tmp)
+        import shutil
+
+        shutil.rmtree(tmp, ignore_errors=True)
     # ---------------------------------------------------------------- constant tables of the canonicaliser
     typing_names = [constants.OPTIONAL, constants.LIST, constants.DICT, constants.ANY, constants.UNION,
                     constants.ASYNC_ITERATOR]
